@@ -1094,6 +1094,7 @@ def main(argv):
             "`same allocation => equal` and otherwise the delegate decides. R-FOOT: for each payload struct, the set of leaf fields read by eq equals "
             "the set read by partial_cmp/cmp/lt../hash at the same instantiation (derived impls expanded at the impl's own self type), header before "
             "slice. By parametricity a one-call delegation returns the payload's answer. Not decided: the payload's own coherence; concrete results."
+            ' Added later: the same-allocation licence is stated for every handle (the constant "equal" answer only under the equality of the two handles\' whole stored pointers, `ptr_eq` itself being exactly that); R-DELEG-ALL also covers the header-slice payload structs.'
         ),
         rule_text="instances = trait methods on handle/payload types (R-DELEG), the Arc::eq/ne shortcut (R-LICENCE), (type, ordering-or-hash method) pairs vs eq (R-FOOT)",
         trusted_base=["rustc trait resolution (Instance::try_resolve) and derive expansion as seen in MIR", "parametricity of one-call delegation"],
